@@ -346,6 +346,12 @@ class Unknown(Exception):
     """An idiom outside the accepted table."""
 
 
+class Wrong(Unknown):
+    """A shape that is positively not the required predicate (reported as a
+    violation by the rule that owns it, INCONCLUSIVE for rules that only need
+    to locate the construct)."""
+
+
 def convergence_test(node: ast.AST) -> Tuple[str, str, ast.AST, ast.AST, bool]:
     """Recognise the accepted forms of the convergence predicate.
 
@@ -372,6 +378,19 @@ def convergence_test(node: ast.AST) -> Tuple[str, str, ast.AST, ast.AST, bool]:
     elif method_call(n, 'any') and not n.args:
         quant, inner = 'any', n.func.value
     if quant is None:
+        # abs(<reduction of a signed quantity>) OP tol : the absolute value is taken after the reduction
+        if isinstance(n, ast.Compare) and len(n.ops) == 1:
+            for side in (n.left, n.comparators[0]):
+                a = abs_arg(side)
+                if a is not None:
+                    red = None
+                    if method_call(a, 'max', 'min', 'sum', 'mean') and not a.args:
+                        red = a.func.attr
+                    elif isinstance(a, ast.Call) and (dotted(a.func) or '').split('.')[-1] in ('max', 'min', 'sum', 'mean', 'amax', 'amin') and len(a.args) == 1:
+                        red = (dotted(a.func) or '').split('.')[-1]
+                    if red:
+                        raise Wrong(f'`{text(node)}` takes the absolute value *after* reducing with {red}(): movements of opposite sign are '
+                                    f'ignored or cancel (expected: every |movement| < tol)')
         raise Unknown(f'no all/any reduction in `{text(node)}`')
     if isinstance(inner, (ast.GeneratorExp, ast.ListComp)):
         if len(inner.generators) != 1 or inner.generators[0].ifs:
